@@ -161,6 +161,14 @@ fn run_program(text: &str, stdout_canon: bool) -> Outcome {
                 Ok(Ok(v)) => {
                     out.canon = format!("ACCEPT type={} value={}", ctype(&st), cvar(&v));
                     out.raw = format!("ACCEPT type={st} value={v:?}");
+                    // the same parsed program once more: a program is a function of its text, also
+                    // the second time (state kept inside instructions shows here)
+                    if let Ok(Ok(v2)) = guarded(|| code.exec()) {
+                        out.events += 1;
+                        if cvar(&v2) != cvar(&v) {
+                            out.direct.push(("repeat-exec-differs".into(), format!("first execution yields {}, the second execution of the same parsed program {}", cvar(&v), cvar(&v2))));
+                        }
+                    }
                 }
             }
         }
@@ -938,7 +946,11 @@ pub fn worker(input: &Value) -> Value {
 /// `simctl single hashsim`: input = scenario json; output {canon, raw, direct}
 pub fn single(input: &Value) -> Value {
     let boot_seed = input["boot_seed"].as_u64().unwrap();
-    crate::boot::boot(boot_seed);
+    // "cold": a process that has done nothing before this run - not even the warm-up every worker
+    // starts with (lazy statics are then initialised by the run itself, under its own hash keys)
+    if input["cold"].as_bool() != Some(true) {
+        crate::boot::boot(boot_seed);
+    }
     let subject = Subject::from_json(&input["subject"]);
     let prefix: Vec<String> = input["prefix"].as_array().map(|a| a.iter().map(|x| x.as_str().unwrap().to_string()).collect()).unwrap_or_default();
     let o = run_scenario(&subject, input["key_seed"].as_u64().unwrap(), &prefix);
